@@ -113,7 +113,7 @@ func c07Scenario(env string, cnt int, srt, ci bool, run string, tests []shape2, 
 			if cl.standalone() {
 				g := vfStandaloneGeneric(t.name, cl)
 				sk[g]++
-				name := strings.Replace(g, "%d", fmt.Sprint(sk[g]), 1)
+				name := vfStandaloneName(g, sk[g])
 				val := cl.Val
 				if cl.Upd == "false" {
 					val = "recorded"
